@@ -10,7 +10,7 @@ func init() {
 		Assumptions: []string{"sync/atomic operations are linearizable"},
 		Run: func(c *Ctx) {
 			c.Do("C08.a", "L10+L3 conditional increment is one atomic step", 6, func() { clRefCountWrites(c) })
-			c.Do("C08.b", "L1+L2 retire exactly once, in order", 8, func() { clSnapshotClose(c); clGCTryLock(c); clCollectorGuard(c) })
+			c.Do("C08.b", "L1+L2 retire exactly once, in order", 8, func() { clSnapshotClose(c); clGCTryLock(c); clCollectorGuard(c); clPlainComparatorTables(c) })
 			c.Do("C08.c", "L2 reference pairing", 10, func() { clIteratorRefPairing(c); clStoreToDiskSnapRef(c) })
 		},
 	})
